@@ -172,15 +172,34 @@ def perturb(rng, base, kind):
     elif kind == "all-hidden":
         for x in T.all_routes(u):
             x["hidden"] = True
+    elif kind == "non-ascii-type-name":
+        # legal Go, not an OpenAPI component key (^[a-zA-Z0-9._-]+$): refused, or written under a name every $ref uses
+        reach = [k for k in T.py_reach(u) if k[0] != "ctl"]
+        if not reach:
+            return None
+        key = rng.choice(sorted(reach))
+        return T.rename_type(u, key, rng.choice(NON_ASCII_NAMES) + "".join(ch for ch in key[1] if ch.isdigit()))
+    elif kind == "context-param-first":
+        # a context.Context parameter in front of path / query / header parameters
+        r["params"] = [p for p in r["params"] if p["loc"] != "ctx"]
+        if not any(p["loc"] in ("path", "query", "header") for p in r["params"]) or rng.random() < 0.5:
+            r["params"].append({"name": "qc", "loc": rng.choice(["query", "header"]), "alias": None,
+                                "type": P(rng.choice(["string", "bool", "int"])), "validate": None})
+        r["params"].insert(0, T.ctx_param())
+        if rng.random() < 0.3:
+            r["params"].insert(rng.randint(1, len(r["params"])), T.ctx_param("ctx2"))
     else:
         raise ValueError(kind)
     return u
 
 
+NON_ASCII_NAMES = ["Gr\u00f6\u00dfe", "\u00dcnit", "Na\u00efve", "\u0414\u043e\u043c", "Taille\u00c9"]
+
 KINDS = ["missing-path-param", "extra-path-param", "duplicate-query-name", "same-name-two-locations",
          "undeclared-scheme", "no-leading-slash", "prefix-param-unmatched", "prefix-param-other-name",
          "prefix-param-matched", "path-alias-not-in-url", "duplicate-url-param", "duplicate-route", "time-alias",
-         "byte-field", "oneof-on-later-struct", "all-hidden", "template-variable-renamed"]
+         "byte-field", "oneof-on-later-struct", "all-hidden", "template-variable-renamed", "non-ascii-type-name",
+         "context-param-first"]
 
 
 def f6_universe():
@@ -210,6 +229,46 @@ def renamed_variable_universe():
     return u
 
 
+def context_first_universe():
+    """GetItem(ctx context.Context, id string, verbose bool) and Touch(ctx, id): the context parameter is not
+    documented, the parameters after it are documented once each."""
+    P = T.prim
+    u = f6_universe()
+    u["ctrls"][0]["prefix"] = "/inventory"
+
+    def par(name, loc, ty):
+        return {"name": name, "loc": loc, "alias": None, "type": P(ty), "validate": None}
+    u["ctrls"][0]["routes"] = [
+        {"name": "GetItem", "verb": "GET", "path": "/items/{id}", "hidden": False,
+         "params": [T.ctx_param(), par("id", "path", "string"), par("verbose", "query", "bool")],
+         "ret": P("string"), "err": None, "errors": [], "security": []},
+        {"name": "Touch", "verb": "PUT", "path": "/items/{id}", "hidden": False,
+         "params": [T.ctx_param(), par("id", "path", "string")],
+         "ret": None, "err": None, "errors": [], "security": []},
+        {"name": "Find", "verb": "GET", "path": "/find", "hidden": False,
+         "params": [par("q", "query", "string"), T.ctx_param(), par("trace", "header", "string"), par("n", "query", "int")],
+         "ret": P("string"), "err": None, "errors": [], "security": []}]
+    return u
+
+
+def non_ascii_universe():
+    """type Größe struct, used as a field and as the item type of a response: not a legal component key."""
+    P = T.prim
+    name = NON_ASCII_NAMES[0]
+    u = f6_universe()
+    u["ctrls"][0]["prefix"] = "/catalogue"
+    u["decls"] = [{"pkg": "types", "name": name, "kind": "struct", "fields": [
+                      {"name": "Label", "embedded": False, "json": "label", "validate": "", "type": P("string")}]},
+                  {"pkg": "types", "name": "Garment", "kind": "struct", "fields": [
+                      {"name": "Size", "embedded": False, "json": "size", "validate": "", "type": T.named("types", name)}]}]
+    u["ctrls"][0]["routes"] = [
+        {"name": "ListSizes", "verb": "GET", "path": "/sizes", "hidden": False, "params": [],
+         "ret": ["slice", T.named("types", name)], "err": None, "errors": [], "security": []},
+        {"name": "GetGarment", "verb": "GET", "path": "/garment", "hidden": False, "params": [],
+         "ret": T.named("types", "Garment"), "err": None, "errors": [], "security": []}]
+    return u
+
+
 # ------------------------------------------------------------------ main
 
 def main():
@@ -230,6 +289,8 @@ def main():
             items += [("corpus", u) for u in json.load(open(corpus_file))]
         items.append(("F6-witness", f6_universe()))
         items.append(("template-variable-renamed", renamed_variable_universe()))
+        items.append(("context-param-first", context_first_universe()))
+        items.append(("non-ascii-type-name", non_ascii_universe()))
         items.append(("tricky", C07.tricky_universe()))
         items.append(("same-named", C07.same_named_universe()))
         nacc = 12 if quick else 200
@@ -374,7 +435,8 @@ def main():
         labels[l] = labels.get(l, 0) + 1
     res.coverage.update({
         "evaluations": len(raw), "distinct_nontrivial": len(distinct),
-        "rule": "type universes of the C07 generator with their controllers (accepted stream) and perturbed copies: "
+        "rule": "type universes of the C07 generator with their controllers (accepted stream; methods may take a "
+                "context.Context parameter at any position) and perturbed copies: "
                 + ", ".join(KINDS) + "; each rendered to Go and run through the real CLI for 3.0.0 and 3.1.0, half of "
                 "the perturbed projects with a foreign spec file already at outputPath; wf + configuration sections "
                 "(prop_C08) are evaluated by vm_compute on whatever file is at outputPath afterwards, failed commands "
